@@ -16,6 +16,8 @@ def status(r):
         return '**missed -> strengthened**'
     if h.startswith('C02 caught it as it stood'):
         return 'caught by C02; owning check **missed -> strengthened**'
+    if h.startswith('C17 caught it as it stood'):
+        return 'caught by C17; owning check **missed -> strengthened**'
     return 'see history'
 L = ['### 10.4 Seeded breakages (independent sub-agents) and which checks catch them', '',
      '%d changes were written by fresh sub-agents that saw only one property text and a scratch worktree of the repository' % n,
